@@ -115,6 +115,24 @@ CLAIMS = {
               "three networks, versions > 16 are rejected. Character-for-character agreement with independent encoders is not decided."),
         technique="evaluated-constant tables + exhaustive decision table over lengths + sibling layout agreement between Display and parsers",
         design_ref="§4 C06"),
+    "C12": dict(
+        category="other",
+        text=("Structural agreement between the size formulas and the encoders: every encoded_length table matches the byte count of the "
+              "corresponding encoder arm (1/9/33/33 etc.), TxOut/TxIn/Transaction size formulas have exactly one addend per field the "
+              "encoder writes (flag-gated fields under the same predicate), the weight scale and discount constants are those of Elements, "
+              "and block size/weight sum header + varint + per-transaction values. Numeric equality on every transaction is implied "
+              "by, but not separately evaluated beyond, these term-level agreements."),
+        technique="sibling agreement between size formula terms and encoder field sequences over MIR provenance terms",
+        design_ref="§4 C12"),
+    "C19": dict(
+        category="other",
+        text=("Decided by substitution: FullParams::calculate_root and Params::calculate_root are the same fast-merkle expression in "
+              "(H(signblockscript), H(limit), extra root) with identical leaf order and hash helper; extra_root has the required three-leaf "
+              "form for full parameters, returns the stored elided root for compact and zero for null; into_compact copies script and limit "
+              "and stores extra_root(); null parameters return the zero root first; the header root is fmr([current, proposed]). Hence "
+              "root(compact(p)) = root(p) for every p. Collision resistance of the hash is outside the claim."),
+        technique="sibling agreement of provenance terms + exhaustive variant decision tables",
+        design_ref="§4 C19"),
     "C17": dict(
         category="proof",
         text=("Proof by finite computation for the data-part clause: from the generator constants rustc evaluated out of /repo, all 31*N "
